@@ -670,7 +670,7 @@ def check_fmt(pid, tier, seed, replay=None):
             "Format must terminate without error; " +
             ("ReadFile(Format(x)) must be accepted and equal ReadFile(x) with doc comments erased" if pid == "C16" else "Format(Format(x)) must equal Format(x) byte for byte") +
             "; the extracted formatter model's output is compared byte for byte on every text; distinct = distinct texts")
-    run, broken = base_run(pid, tier, seed, rule, "props/%s.v" % pid, ["%s_partial" % pid, "%s_structs" % pid, "%s_records" % pid, "%s_schema" % pid])
+    run, broken = base_run(pid, tier, seed, rule, "props/%s.v" % pid, ["%s_partial" % pid, "%s_structs" % pid, "%s_records" % pid, "%s_schema" % pid] + (["C17_schema_iter"] if pid == "C17" else []))
     run.cov["explanation"] = ("partial: proved are that Format panics on no input and the instances of the statement on the four texts that were mangled before the formatter was repaired "
                               "(%s_partial, coq/props/%s.v); the general statement needs the inversion of the tokenizer on the formatter's output and is decided by this run: "
                               "the property evaluated on the implementation, and the formatter model compared byte for byte" % (pid, pid))
@@ -685,6 +685,10 @@ def check_fmt(pid, tier, seed, replay=None):
             texts.append((items, t))
         # end-of-line comments after fields / members / headers (not a layout C11's expected dump covers: comment attachment is compared with the model only)
         texts.append((items, frontgen.decorate(frontgen.render(items, frontgen.Layout(canonical=True)), rng)))
+        # comment lines between an attribute line and what it decorates (round 8: a formatter hoisting one comment per pass over [deprecated])
+        ta = frontgen.decorate_attr(frontgen.render(items, frontgen.Layout(canonical=True)), rng)
+        if ta != texts[-1][1]:
+            texts.append((items, ta))
     # the first four are the texts that were mangled before the repairs (front/FmtFacts.v proves the instances on the model)
     for extra in ["enum E : uint8 { A = 1; }\n", "import \"a.bop\"\nstruct A { int32 a; }\n", "[flags]\nenum F { A = 1; B = A | 2; }\n",
                   "struct A { int32[][] grid; }\n", "struct A { array[array[int32]] g; map[string, map[int32, string[]]] m; }\n"]:
